@@ -7,5 +7,5 @@ mkdir -p work evidence replays
 ( cd harness && cargo build --offline --release --bin tzmon && cargo build --offline --profile checked --bin tzmon )
 # warm the Miri sysroot + harness build (used by the sanitizer slices); failure here is not fatal:
 # the slices report INCONCLUSIVE themselves if the interpreter is unavailable
-( cd harness && CARGO_TARGET_DIR=target-miri MIRIFLAGS=-Zmiri-disable-isolation cargo +nightly miri run --offline --bin tzmon -- C01 --scale 0.00001 --threads 1 --out /dev/null >/dev/null 2>&1 ) || echo "setup: miri warm-up failed (slices will report inconclusive)"
+( cd harness && CARGO_TARGET_DIR=target-miri MIRIFLAGS=-Zmiri-disable-isolation timeout 1200 cargo +nightly miri run --offline --bin tzmon -- C16 --tier quick --scale 0.00001 --threads 1 --budget 1 --out /dev/null >/dev/null 2>&1 ) || echo "setup: miri warm-up failed (slices will report inconclusive)"
 echo "setup: ok"
